@@ -18,5 +18,6 @@ import (
 	_ "verif/h/c15"
 	_ "verif/h/c16"
 	_ "verif/h/c17"
+	_ "verif/h/c18"
 	_ "verif/h/c19"
 )
